@@ -28,6 +28,45 @@
 #include "core/print_error.h"
 #include "disasm/msp430.h"
 
+#ifdef NAKEN_ASM_VERIF
+naken_asm_verif_label_cb_t naken_asm_verif_label_cb = nullptr;
+
+void naken_asm_verif_label(
+  AsmContext *asm_context,
+  const char *name,
+  uint32_t value)
+{
+  static FILE *events = nullptr;
+  static bool tried = false;
+  uint32_t recorded = 0;
+  int found = asm_context->symbols.lookup(name, &recorded);
+
+  if (naken_asm_verif_label_cb != nullptr)
+  {
+    naken_asm_verif_label_cb(asm_context, name, value, found, recorded);
+  }
+
+  if (!tried)
+  {
+    const char *filename = getenv("NAKEN_ASM_VERIF_EVENTS");
+    if (filename != nullptr) { events = fopen(filename, "a"); }
+    tried = true;
+  }
+
+  if (events != nullptr)
+  {
+    fprintf(events, "L %d %d %s %u %d %u\n",
+      asm_context->pass,
+      asm_context->tokens.line,
+      name,
+      value,
+      found,
+      recorded);
+    fflush(events);
+  }
+}
+#endif
+
 AsmContext::AsmContext() :
   parse_instruction      { nullptr },
   parse_directive        { nullptr },
@@ -232,6 +271,10 @@ int AsmContext::assemble()
         print_already_defined(this, token);
         return -1;
       }
+
+#ifdef NAKEN_ASM_VERIF
+      naken_asm_verif_label(this, token, address / bytes_per_address);
+#endif
 
       if (symbols.append(token, address / bytes_per_address) == -1)
       {
@@ -463,6 +506,10 @@ int AsmContext::link()
     const char *symbol = linker->get_symbol_at_index(index);
 
     if (symbol == nullptr) { break; }
+
+#ifdef NAKEN_ASM_VERIF
+    naken_asm_verif_label(this, symbol, address);
+#endif
 
     symbols.append(symbol, address);
 
